@@ -47,6 +47,36 @@ fn generators(cfg: &Cfg) -> Vec<Generator> {
 
 const FILES: [&str; 5] = ["root.zy", "a.zy", "a.zyi", "b.zy", "other.zy"];
 
+/// Marker of content variants that exist on disk only: bytes that are not UTF-8, a directory at the path, a symbolic link.
+const SPECIAL: &str = "\u{1}disk-only:";
+
+fn remove_path(path: &Path) {
+    match std::fs::symlink_metadata(path) {
+        | Ok(meta) if meta.is_dir() => {
+            let _ = std::fs::remove_dir_all(path);
+        }
+        | Ok(_) => {
+            let _ = std::fs::remove_file(path);
+        }
+        | Err(_) => {}
+    }
+}
+
+/// Put a content variant at a path on disk.
+fn write_variant(dir: &Path, file: &str, text: &str) {
+    let path = dir.join(file);
+    remove_path(&path);
+    match text.strip_prefix(SPECIAL) {
+        | None => std::fs::write(&path, text).unwrap(),
+        | Some("invalid-utf8") => std::fs::write(&path, [0xffu8, 0xfe, 0xfd, b'1']).unwrap(),
+        | Some("directory") => std::fs::create_dir_all(&path).unwrap(),
+        | Some(link) => {
+            let target = link.strip_prefix("symlink:").unwrap_or("b.zy");
+            let _ = std::os::unix::fs::symlink(dir.join(target), &path);
+        }
+    }
+}
+
 fn variants(file: &str) -> Vec<(&'static str, String)> {
     let p = MiniPrelude::core().text();
     match file {
@@ -71,6 +101,10 @@ fn variants(file: &str) -> Vec<(&'static str, String)> {
             ("imports-root", "@(import(\"root.zy\"))".into()),
             ("imports-itself", "@(import(\"a.zy\"))".into()),
             ("thunk", "{ ret 1 }".into()),
+            // disk-only states (see `SPECIAL`): not text at all, not a file, a link to another file
+            ("invalid-utf8", format!("{SPECIAL}invalid-utf8")),
+            ("directory", format!("{SPECIAL}directory")),
+            ("symlink-to-b", format!("{SPECIAL}symlink:b.zy")),
         ],
         | "a.zyi" => vec![
             ("int64", "@(intrinsic(i64))".into()),
@@ -78,7 +112,7 @@ fn variants(file: &str) -> Vec<(&'static str, String)> {
             ("syntax-error", "(@(intrinsic(i64))".into()),
             ("imports-b", "@(import(\"b.zy\"))".into()),
         ],
-        | "b.zy" => vec![("7", "7".into()), ("8", "8".into()), ("imports-a", "@(import(\"a.zy\"))".into()), ("pair", "(7, 8)".into())],
+        | "b.zy" => vec![("7", "7".into()), ("8", "8".into()), ("imports-a", "@(import(\"a.zy\"))".into()), ("pair", "(7, 8)".into()), ("invalid-utf8", format!("{SPECIAL}invalid-utf8"))],
         | _ => vec![
             ("uses-b", format!("{p}do s <- ! to_string (@(import(\"b.zy\")));\n! write_line s {{ ! exit 9 }}\n")),
             ("no-import", format!("{p}! exit 10\n")),
@@ -309,7 +343,7 @@ impl World {
         let mut disk = BTreeMap::new();
         for (f, v) in initial {
             let text = variants(FILES[*f])[*v].1.clone();
-            std::fs::write(dir.join(FILES[*f]), &text).unwrap();
+            write_variant(&dir, FILES[*f], &text);
             disk.insert(*f, text);
         }
         World { _scratch: scratch, dir, disk, overlays: BTreeMap::new(), session: CompilerSession::default() }
@@ -318,11 +352,13 @@ impl World {
         match op {
             | Op::SetOverlay(f, v) => {
                 let text = variants(FILES[*f])[*v].1.clone();
+                // disk-only states cannot be overlays
+                let text = if text.starts_with(SPECIAL) { variants(FILES[*f])[0].1.clone() } else { text };
                 let _ = self.session.set_overlay(self.dir.join(FILES[*f]), text.clone());
                 self.overlays.insert(*f, text);
             }
             | Op::OverlayEqualDisk(f) => {
-                if let Some(text) = self.disk.get(f).cloned() {
+                if let Some(text) = self.disk.get(f).cloned().filter(|t| !t.starts_with(SPECIAL)) {
                     let _ = self.session.set_overlay(self.dir.join(FILES[*f]), text.clone());
                     self.overlays.insert(*f, text);
                 }
@@ -333,12 +369,12 @@ impl World {
             }
             | Op::WriteDisk(f, v) => {
                 let text = variants(FILES[*f])[*v].1.clone();
-                std::fs::write(self.dir.join(FILES[*f]), &text).unwrap();
+                write_variant(&self.dir, FILES[*f], &text);
                 let _ = self.session.refresh_disk(self.dir.join(FILES[*f]));
                 self.disk.insert(*f, text);
             }
             | Op::DeleteDisk(f) => {
-                let _ = std::fs::remove_file(self.dir.join(FILES[*f]));
+                remove_path(&self.dir.join(FILES[*f]));
                 let _ = self.session.refresh_disk(self.dir.join(FILES[*f]));
                 self.disk.remove(f);
             }
@@ -383,9 +419,27 @@ fn execute(initial: &[(usize, usize)], ops: &[Op], stats: &mut Stats) -> (Vec<St
 
 fn report(stats: &mut Stats, generator: &str, index: u64, initial: &[(usize, usize)], ops: &[Op], at: usize, incremental: String, fresh: String) {
     let Op::Query(q, _) = &ops[at] else { unreachable!() };
+    let mut tags: Vec<String> = Vec::new();
+    for op in &ops[..=at] {
+        let d = describe(op);
+        for (needle, tag) in [("invalid-utf8", "history-has-unreadable-file"), ("directory", "history-has-unreadable-file"), ("symlink-to-b", "history-has-symlink-appearing")] {
+            if d.contains(needle) && !tags.contains(&tag.to_string()) {
+                tags.push(tag.to_string());
+            }
+        }
+    }
+    for (f, v) in initial {
+        let name = variants(FILES[*f])[*v].0;
+        if matches!(name, "invalid-utf8" | "directory") && !tags.contains(&"history-has-unreadable-file".to_string()) {
+            tags.push("history-has-unreadable-file".to_string());
+        }
+        if name == "symlink-to-b" && !tags.contains(&"history-has-symlink-appearing".to_string()) {
+            tags.push("history-has-symlink-appearing".to_string());
+        }
+    }
     stats.violation(Violation {
         signature: format!("incremental-answer-differs {:?}", q),
-        tags: vec![],
+        tags,
         generator: generator.into(),
         index,
         detail: json!({
@@ -410,7 +464,8 @@ fn run_history(cfg: &Cfg, index: u64, stats: &mut Stats) {
         };
         if present {
             // start from mostly-valid variants
-            let n = variants(FILES[f]).len();
+            let all_variants = variants(FILES[f]);
+            let n = if index % 5 == 0 { all_variants.len() } else { all_variants.iter().filter(|(_, t)| !t.starts_with(SPECIAL)).count() };
             let v = if rng.chance(2, 3) { rng.below(2.min(n)) } else { rng.below(n) };
             initial.push((f, v));
         }
@@ -427,7 +482,11 @@ fn run_history(cfg: &Cfg, index: u64, stats: &mut Stats) {
             | 7..=8 => 0,
             | _ => 4,
         };
-        let nv = variants(FILES[f]).len();
+        // disk-only states (unreadable file, directory, symbolic link) only in every fifth history: they trigger two
+        // recorded findings, and the other histories must be clean without any tolerance
+        let all_variants = variants(FILES[f]);
+        let plain = all_variants.iter().filter(|(_, t)| !t.starts_with(SPECIAL)).count();
+        let nv = if index % 5 == 0 { all_variants.len() } else { plain };
         let op = match rng.below(20) {
             | 0..=2 => Op::SetOverlay(f, rng.below(nv)),
             | 3 => Op::OverlayEqualDisk(f),
@@ -499,6 +558,10 @@ const SCRIPTS: &[Script] = &[
     ("chain", &[(0, 0), (1, 4), (3, 0)], &[All(0), Write(3, 1), All(0), Delete(3), All(0), Write(3, 0), All(0), Write(1, 0), All(0), Write(3, 1), All(0)]),
     // a disk change hidden by an overlay, then revealed
     ("hidden-disk-change", &[(0, 0), (1, 0)], &[Set(1, 1), All(0), Write(1, 2), All(0), Clear(1), All(0)]),
+    // a provider that is unreadable (not merely missing) when first looked up, then repaired
+    ("provider-unreadable-then-repaired", &[(0, 0), (1, 8)], &[All(0), Write(1, 0), All(0), Write(1, 9), All(0), Write(1, 1), All(0)]),
+    // a provider that is missing when first looked up and appears as a symbolic link
+    ("provider-appears-as-symlink", &[(0, 0), (3, 0)], &[All(0), Write(1, 10), All(0), Write(3, 1), All(0), Delete(1), All(0)]),
     // syntax error and recovery of the root
     ("root-syntax", &[(0, 0), (1, 0)], &[All(0), Set(0, 3), All(0), Set(0, 0), All(0), Clear(0), All(0), Write(0, 5), All(0)]),
 ];
